@@ -56,6 +56,7 @@ class Opts:
         self.p_uniform = 0.25       # chance that all fields of a variant share one kind
         self.p_rank_edge = 0.2      # chance (per variant) of explicit ranks in the range of the default ranks
         self.param_attrs = True     # attributes (`#[allow(..)]`, `#[cfg(all())]`) on some generic parameters
+        self.named_methods = True   # spell some custom methods as `::verif_rt::named::<StdTraitName>::<method>`
         self.all_method = False     # comparison-like traits: every field goes through a custom method or is ignored
         self.rich = False           # allow the rich generics flavour (two lifetimes, two type
                                     # parameters, a const parameter, a user where-clause)
@@ -63,6 +64,8 @@ class Opts:
 
 
 PARAM_ATTRS = ["#[allow(non_camel_case_types)]", "#[cfg(all())]", "#[allow(unused)]", "#[allow(non_upper_case_globals, non_snake_case)]"]
+NAMED_METHODS = {"eq_mod2": "named::PartialEq::eq", "cmp_rev": "named::Ord::cmp", "pcmp_rev": "named::PartialOrd::partial_cmp",
+                 "hash_alt": "named::Hash::hash", "fmt_alt": "named::Debug::fmt", "clone_alt": "named::Clone::clone"}
 DEFAULT_NAMES = None   # C19 installs a hostile name provider here
 EXCLUDE_KINDS = set()  # C19: kinds whose type text needs `std` (the definitions live in a no_std crate)
 
@@ -639,6 +642,14 @@ def decorate(rng, td, o):
         td.tsem["Default"]["expr_val"] = (vi, vals)
         td.extra_items.append("pub fn dflt_value() -> %s {\n    %s\n}\n" %
                               (td.name, S.emit_value(td, vi, vals, side="7")))
+
+    # some custom methods are named through a trait that is called like the std trait (`..::named::Hash::hash`)
+    if o.named_methods:
+        for v, f in td.all_fields():
+            for t, d in f.sem.items():
+                if isinstance(d, dict) and d.get("method") and d["method"].startswith(RT) and d["method"][len(RT):] in NAMED_METHODS \
+                        and rng.random() < 0.12:
+                    d["method_spelling"] = RT + NAMED_METHODS[d["method"][len(RT):]]
 
     # explicit bounds -----------------------------------------------------------------------------
     if generic and o.bounds:
